@@ -162,6 +162,53 @@ theorem completeness_nxdomain {q s : Name} {qtype : Nat} {nsecs : List Nsec} {Z 
   rw [if_neg (by decide)]
   simp only [hst, hdirect, hc', hcov]
 
+/-- a link that sorts its next name before its owner is the last link: next = apex -/
+theorem wrap_of_next_lt {Z : ZoneView} {n : Nsec} (hl : LinkOf Z n) (h : K n.next < K n.owner) :
+    K n.next = Z.apex := by
+  apply Classical.byContradiction
+  intro hne
+  exact lt_irrefl _ (lt_trans (link_owner_lt_next hl hne).1 h)
+
+theorem lt_of_le_of_ne' {a b : Key} (h : a ≤ b) (hne : a ≠ b) : a < b := by
+  apply Classical.byContradiction
+  intro hn
+  exact hne (List.le_antisymm h (not_lt.1 hn))
+
+/-- What `closest_nsec(x)` guarantees about the link `n` it returns — owner not after `x`, and
+`x` before the next name or the link wraps — makes `n` a cover of `x` as soon as `x` does not
+exist in the zone view. -/
+theorem coversIn_of_closest {Z : ZoneView} {n : Nsec} {x : Key} (hl : LinkOf Z n)
+    (hx : ¬ Z.Exists x) (hin : Z.apex <+: x)
+    (h1 : ¬ x < K n.owner) (h2 : x < K n.next ∨ K n.next < K n.owner) : CoversIn Z x n := by
+  have hneq : K n.owner ≠ x := by
+    intro he
+    exact hx ⟨K n.owner, link_owner_data hl, by rw [he]; exact List.prefix_refl _⟩
+  refine ⟨lt_of_le_of_ne' (not_lt.1 h1) hneq, ?_⟩
+  rcases h2 with h | h
+  · exact Or.inl h
+  · exact Or.inr ⟨wrap_of_next_lt hl h, hin⟩
+
+/-- **NXDOMAIN proof made of two `closest_nsec` results is accepted**: `cn` is what
+`closest_nsec` guarantees for the query name, `wn` what it guarantees for the wildcard at the
+closest encloser. -/
+theorem completeness_nxdomain_closest {q s : Name} {qtype : Nat} {nsecs : List Nsec}
+    {Z : ZoneView} {cn wn : Nsec} {ce : Key}
+    (hwf : InputsWF q (some s) [] nsecs) (hqb : C04.Bounded q)
+    (hapex : K s = Z.apex) (hin : K s <+: K q) (hZ : ConsistentWith nsecs Z)
+    (hnq : ¬ Z.Exists (K q)) (hce : Z.ClosestEncloser ce (K q))
+    (hnw : ¬ Z.Exists (ce ++ [Spec.STAR])) (hapexce : Z.apex <+: ce)
+    (hcm : cn ∈ nsecs) (hc1 : ¬ K q < K cn.owner)
+    (hc2 : K q < K cn.next ∨ K cn.next < K cn.owner)
+    (hcd : ¬ IsAncestorDelegation cn.types)
+    (hwm : wn ∈ nsecs) (hw1 : ¬ ce ++ [Spec.STAR] < K wn.owner)
+    (hw2 : ce ++ [Spec.STAR] < K wn.next ∨ K wn.next < K wn.owner)
+    (hwd : ¬ IsAncestorDelegation wn.types) :
+    verifyNsec q qtype (some s) 3 [] nsecs = .secure :=
+  completeness_nxdomain hwf hqb hapex hin hZ hnq hce hnw hcm
+    (coversIn_of_closest (hZ cn hcm) hnq (hapex ▸ hin) hc1 hc2) (fun h => hcd h.1) hwm
+    (coversIn_of_closest (hZ wn hwm) hnw (List.IsPrefix.trans hapexce (List.prefix_append _ _))
+      hw1 hw2) (fun h => hwd h.1)
+
 /-! ### NODATA at an existing owner -/
 
 /-- **A NODATA proof owned by the query name is accepted**: the first record of the response
